@@ -17,14 +17,13 @@ from vlib.workload import case_rng, per_shard
 ID = "C19"
 LEVEL = "exploration"
 RULE = ("synthesised dataclass families (0-5 fields, defaults and default_factory, frozen/eq/order/unsafe_hash flags, ClassVars, methods, "
-        "single inheritance from slotted and unslotted bases, user __getstate__/__setstate__) emitted twice - plain and decorated with "
+        "single inheritance from slotted and unslotted bases, fields excluded from __init__, methods and __post_init__ chains using zero-argument super(), user __getstate__/__setstate__ (both, or only the restoring half); decorated in place, by a later call after the class was already used, or twice) emitted twice - plain and decorated with "
         "@classes.slotted(dict=?, weakref=?) in all four flag combinations - in decoration histories of 1-4 classes incl. repeated "
         "class names and an earlier failing decoration; the same operation script (construct, ==, ordering, hash, repr, copy, deepcopy, "
         "pickle, frozen-ness, defaults, isinstance, qualname/module) runs against both and the traces are compared; layout is checked "
         "against the statement and native dataclass(slots=True); classes._stack must be empty at every quiescent point; one evaluation = "
         "one class compared; distinct = class source")
 ASSUMPTIONS = [
-    "zero-argument super()/__class__-cell methods are not generated (rebuilding a class invalidates the cell - inherent in the approach)",
     "the 'use native slots on Python >= 3.10' warning is ignored; comparison with native slots only concerns the slot tuple",
 ]
 PLAN = {"quick": dict(histories=6000), "thorough": dict(histories=60000)}
@@ -35,7 +34,7 @@ FLOORS = {"quick": {"classes_with_dict_state": 1500, "classes_compared": 10000, 
 _N = [0]
 
 
-def gen_class(rng, name, base=None, base_fields=(), slotted_args=None, extras=False):
+def gen_class(rng, name, base=None, base_fields=(), slotted_args=None, extras=False, mode="decorator"):
     """Source of one dataclass (optionally decorated with slotted). Returns (source, field list [(name, default_src)])."""
     nf = rng.randrange(0, 6 if base is None else 3)
     frozen = rng.random() < 0.3
@@ -62,11 +61,16 @@ def gen_class(rng, name, base=None, base_fields=(), slotted_args=None, extras=Fa
         d = None
         if have_default or rng.random() < 0.3:
             have_default = True
-            d = rng.choice(["0", "'d'", "dataclasses.field(default_factory=list)", "None", "(1, 2)"])
+            d = rng.choice(["0", "'d'", "dataclasses.field(default_factory=list)", "None", "(1, 2)",
+                            # excluded from __init__: a plain default then lives on the class only (nothing assigns it), a factory is
+                            #   still called by __init__
+                            "dataclasses.field(init=False, default=7)", "dataclasses.field(init=False, default_factory=list)"])
         fields.append((fname, d))
     lines = []
-    if slotted_args is not None:
+    if slotted_args is not None and mode in ("decorator", "double"):
         lines.append(f"@classes.slotted({slotted_args})")
+        if mode == "double":
+            lines.append(f"@classes.slotted({slotted_args})")  # the result of slotted() is a dataclass as well
     lines.append(f"@dataclasses.dataclass({', '.join(flags)})")
     lines.append(f"class {name}{'(' + base + ')' if base else ''}:")
     body = []
@@ -76,18 +80,47 @@ def gen_class(rng, name, base=None, base_fields=(), slotted_args=None, extras=Fa
         body.append(f"    {fname}: typing.Any" + (f" = {d}" if d is not None else ""))
     if rng.random() < 0.4:
         body.append("    def total(self):\n        return len(dataclasses.fields(self))")
-    if rng.random() < 0.12 and not frozen:
+    if rng.random() < 0.35:
+        # zero-argument super(): the method closes over the class it was defined in
+        body.append(f"    def lineage(self):\n        return ({name!r},) + getattr(super(), 'lineage', tuple)()")
+    hooks = rng.random()
+    if hooks < 0.12:
         body.append("    def __getstate__(self):\n        return {f.name: getattr(self, f.name) for f in dataclasses.fields(self)}")
         body.append("    def __setstate__(self, state):\n        for k, v in state.items():\n            object.__setattr__(self, k, v)")
+    elif hooks < 0.22:
+        # only the restoring half, written for either state shape (instance dict / (instance dict, slots)); it leaves a trace
+        body.append("    def __setstate__(self, state):\n        RESTORED.append(type(self).__name__)\n"
+                    "        for part in (state if isinstance(state, tuple) else (state,)):\n"
+                    "            for k, v in (part or {}).items():\n                object.__setattr__(self, k, v)")
     use_extras = rng.random() < 0.5 and extras
-    if use_extras:
-        # non-field state kept in the instance __dict__ (the usual idiom on frozen classes); only emitted when the slotted twin has one
-        body.append("    def __post_init__(self):\n        object.__setattr__(self, 'xtra_key', ('derived', len(dataclasses.fields(self))))\n"
-                    "        object.__setattr__(self, 'xtra_list', [1, 2])")
+    chain_post_init = rng.random() < 0.25
+    if use_extras or chain_post_init:
+        post = ["    def __post_init__(self):"]
+        if chain_post_init:
+            post.append("        getattr(super(), '__post_init__', lambda: None)()")
+            post.append("        POST_INITS.append(type(self).__name__)")
+        if use_extras:
+            # non-field state kept in the instance __dict__ (the usual idiom on frozen classes); only emitted when the slotted twin has one
+            post.append("        object.__setattr__(self, 'xtra_key', ('derived', len(dataclasses.fields(self))))")
+            post.append("        object.__setattr__(self, 'xtra_list', [1, 2])")
+        body.append("\n".join(post))
     if not body:
         body.append("    pass")
     lines.extend(body)
+    if slotted_args is not None and mode == "late":
+        # the class is used before it is decorated (copying an instance makes copyreg cache `__slotnames__` on the class), then
+        #   decorated by a call
+        lines.append(f"_early = {name}(**{{f.name: 0 for f in dataclasses.fields({name}) if f.init and f.default is dataclasses.MISSING "
+                     f"and f.default_factory is dataclasses.MISSING}})")
+        lines.append("copy.copy(_early)")
+        lines.append(f"{name} = classes.slotted({slotted_args})({name})")
     return "\n".join(lines) + "\n", fields, dict(frozen=frozen, order=order, eq=eq, unsafe_hash=unsafe_hash)
+
+
+def _appended(log, fn):
+    n = len(log)
+    fn()
+    return list(log[n:])
 
 
 def script(mod, cname, allfields, flags, rng_vals, nested=False):
@@ -136,14 +169,21 @@ def script(mod, cname, allfields, flags, rng_vals, nested=False):
     rec("dict-state-deepcopy", lambda: xt(copy.deepcopy(a)))
     rec("dict-state-pickle", lambda: [xt(pickle.loads(pickle.dumps(a, protocol=pr))) for pr in (2, pickle.HIGHEST_PROTOCOL)])
     rec("dict-state-replace", lambda: xt(dataclasses.replace(a)))
-    if allfields:
-        f0 = allfields[0][0]
+    assigned = [f for f, d in allfields if not (d and "init=False, default=" in d)]  # (a default read from the class is not an instance attribute)
+    if assigned:
+        f0 = assigned[0]
         rec("setattr", lambda: (setattr(b, f0, "changed"), getattr(b, f0))[1])
         rec("delattr", lambda: delattr(c, f0))
     rec("defaults", lambda: [repr(getattr(a, f)) for f, d in allfields if d is not None])
     rec("default-factory-fresh", lambda: all(getattr(a, f) is not getattr(C(**kw1), f) for f, d in allfields if d and "default_factory" in d))
     rec("classvar", lambda: getattr(C, "KIND", "<none>"))
     rec("method", lambda: a.total() if hasattr(a, "total") else "<none>")
+    rec("super-method", lambda: a.lineage() if hasattr(a, "lineage") else "<none>")
+    rec("post-init-chain", lambda: _appended(mod.POST_INITS, lambda: C(**kw1)))
+    if any(not (d and "init=False, default=" in d) for _, d in allfields):
+        # (an instance without any assigned attribute has no state: nothing is restored)
+        rec("user-setstate-calls", lambda: (mod.RESTORED.clear(), copy.copy(a), copy.deepcopy(a), pickle.loads(pickle.dumps(a)), list(mod.RESTORED))[-1])
+    rec("field-values", lambda: [repr(getattr(a, f, "<unset>")) for f, _ in allfields])
     rec("isinstance-bases", lambda: [isinstance(a, base) for base in C.__mro__[1:-1]])
     rec("mro-names", lambda: [k.__name__ for k in C.__mro__])
     rec("qualname", lambda: C.__qualname__)
@@ -184,7 +224,7 @@ def run_case(sh, i, plan):
     nclasses = rng.choice([1, 2, 2, 3, 4])
     scenario = rng.choice(["plain", "repeat-name", "failing-first", "inherit", "inherit", "inherit"])
     specs = []  # (name, base name or None, slotted_args (dict,weakref), base_slotted?)
-    header = "import dataclasses, typing\nfrom typelib.py import classes\n"
+    header = "import copy, dataclasses, typing\nfrom typelib.py import classes\nRESTORED = []\nPOST_INITS = []\n"
     plain_src, slot_src = header, header
     meta = []
     for k in range(nclasses):
@@ -202,11 +242,25 @@ def run_case(sh, i, plan):
         base_unslotted = False
         if base_kind is not None and rng.random() < 0.5:
             base_unslotted = True  # the slotted module inherits from an UNSLOTTED base of the same shape
+        mode = rng.choice(["decorator"] * 8 + ["late", "double"])
+        if base_kind is not None and any(dflt and "init=False, default=" in dflt for _, dflt in base_kind["allfields"]):
+            # a default read from the class does not reach an UNSLOTTED subclass of a slotted class (its own __init__ never assigns the
+            #   field, and the slot has displaced the class attribute) - the same holds for native dataclass(slots=True): such
+            #   lineages are slotted throughout
+            base_unslotted = False
+            mode = "decorator"
+        sh.count("decorations_" + mode)
         # keep RNG streams identical for both emissions
         state = rng.getstate()
         src_p, fields, flags = gen_class(rng, name, base, base_fields, None, extras=d)
         rng.setstate(state)
-        src_s, _, _ = gen_class(rng, name, (base + "_plain" if base_unslotted else base) if base else None, base_fields, f"dict={d}, weakref={w}", extras=d)
+        src_s, _, _ = gen_class(rng, name, (base + "_plain" if base_unslotted else base) if base else None, base_fields, f"dict={d}, weakref={w}", extras=d, mode=mode)
+        if "super()" in src_p:
+            sh.count("classes_with_zero_arg_super")
+        if "init=False" in src_p:
+            sh.count("classes_with_init_false_fields")
+        if "RESTORED" in src_p:
+            sh.count("classes_with_setstate_only")
         if "__post_init__" in src_p:
             sh.count("classes_with_dict_state")
         if flags["frozen"] and base_kind is not None:
